@@ -50,7 +50,17 @@ def gen_dary_case(rng, cid, nops):
         lines.append("setp " + pr.set(rng, pool, -3, 3))
     for _ in range(nops):
         k = rng.random()
-        if k < 0.40:
+        if k < 0.06 and content:
+            # push(const&) with an argument aliasing a stored element: push(top()) or push(heap_[i])
+            i = 0 if rng.random() < 0.5 else rng.randrange(len(content))
+            lines.append(f"pushat {i}")
+            m = pr.minima(content)
+            if i == 0 and len(set(m)) == 1:
+                content.append(m[0])
+            else:
+                unsure = True
+                content.append(m[0] if i == 0 else rng.choice(content))
+        elif k < 0.40:
             key = rng.choice(pool)
             lines.append(f"push {key}")
             content.append(key)
@@ -141,6 +151,14 @@ def gen_addr_case(rng, cid, nops):
                             unc.add(x)
             else:
                 lines.append("pop" if (invalid and not inheap and not unc) else "size")
+        elif k < 0.55 and inheap and not unc:
+            # update(heap_[0]) = update(top()): the generator knows the key only when the minimum is unique
+            m = pr.minima(sorted(inheap))
+            if len(m) == 1:
+                pr.p[m[0]] = rng.randint(-8, 8)
+                lines.append(f"updat 0 {pr.p[m[0]]}")
+            else:
+                lines.append("sanity")
         elif k < 0.70:
             key = rng.choice(pool)
             pr.p[key] = rng.randint(-8, 8)
@@ -247,6 +265,11 @@ def gen_radix_case(rng, cid, nops):
             # incl. the hint overloads push_to_bucket / emplace_in_bucket (index from get_bucket[_key])
             lines.append(f"{rng.choice(['push', 'push', 'emplace', 'emplacekf', 'pushb', 'pushb', 'emplaceb'])} {key}")
             bisect.insort(keys, key)
+        elif k < 0.49 and keys:
+            # by-reference entry points with references to the stored top element
+            lines.append(rng.choice(["pushtop", "pushbtop", "emplacetop"]))
+            frontier = keys[0]
+            keys.insert(0, keys[0])
         elif k < 0.55:
             lines.append("top")
             if keys:
